@@ -152,6 +152,11 @@ def _main(args) -> int:
     if runner.tree_hash() != tree_at_start:
         raise runner.HarnessFailure("the sources under %s changed while the check was running: results would mix two trees; run it again" % runner.REPO)
 
+    # ---- extra deterministic phase of the property (C09: single-fault sweeps)
+    extra_info, extra_vs = {}, []
+    if hasattr(impl, "extra_phase") and not stop["flag"]:
+        extra_info, extra_vs = impl.extra_phase(prop, args.tier, seeds, args.jobs)
+
     # ---- self-test: determinism of the simulator (same seed twice, fresh processes)
     selftest = {"determinism_seeds": 0, "determinism_ok": True}
     if not args.no_selftest and done and not stop["flag"]:
@@ -171,6 +176,8 @@ def _main(args) -> int:
     for r in done:
         for v in r["violations"]:
             by_sig.setdefault(v["sig"], []).append(v)
+    for v in extra_vs:
+        by_sig.setdefault(v["sig"], []).append(v)
     new, listed = [], []
     for sig in sorted(by_sig):
         v = by_sig[sig][0]
@@ -210,6 +217,7 @@ def _main(args) -> int:
     ev = impl.evidence(prop, args.tier, base, done, selftest, wall, t_runs, len(new), seen_known, args.jobs)
     if hasattr(ctx, "stats"):
         ev["coverage"]["goldens"] = dict(ctx.stats)
+    ev["coverage"].update(extra_info)
     ev["coverage"]["regression_replays"] = {"executed": len(reg_files), "reproduced": len(reg_hits)}
     ev["violations"] = len(new) + len(reg_hits)
     os.makedirs(EVIDENCE, exist_ok=True)
